@@ -1,13 +1,15 @@
 """C18 — Medium get/set are inverse and a minimal medium is sufficient and minimal."""
 from contracts import c18_medium as C
+from contracts import c18_mip as CMIP
+from pyvc.contract import chain_hooks
 from props._generic import run_property, replay_with_driver
 
 LEVEL = "other"
-KEYS = ["medium.is_active", "medium.get_active_bound", "medium.set_active_bound", "add_linear_obj"]
+KEYS = ["medium.is_active", "medium.get_active_bound", "medium.set_active_bound", "add_linear_obj", "add_mip_obj"]
 
 
 def run(rep):
-    run_property(rep, KEYS, lemmas=C.lemmas, explanation=(
+    run_property(rep, KEYS, hooks=chain_hooks(CMIP.HOOKS), lemmas=lambda: C.lemmas() + CMIP.lemmas(), explanation=(
         "Deductive (kernel): the three nested accessor functions of Model.medium are proved over an abstract exchange "
         "(has_reactants, has_products, lb, ub): is_active, get_active_bound (import bound by the direction of writing) and "
         "set_active_bound (sets exactly the import-side bound, leaves the export bound and every other reaction untouched; raises "
@@ -17,13 +19,31 @@ def run(rep):
         "tightened. minimal_medium.add_linear_obj (the LP formulation's objective) is proved, with a loop invariant over the exchange "
         "list, to put coefficient 1 on the IMPORT variable of every exchange (reverse variable of `met -->`, forward variable of "
         "`--> met`), to leave every other objective coefficient alone and to set the direction to min - i.e. the objective is the "
-        "total import flux, as documented. The loops of the accessors over model.exchanges, add_mip_obj, minimal_medium's driver "
-        "loop and the optimality of its answers are NOT proved: "
+        "total import flux, as documented. minimal_medium.add_mip_obj (the MILP formulation 'least number of components') is proved on "
+        "the unchanged source, for any number of exchanges, through the opaque optlang algebra (variables, rows and expressions are "
+        "syntactic terms; `-`, `*` and Constraint(expr, ub=0) meaning expr <= 0 are optlang's) with a loop invariant over the exchange "
+        "list: with M DEFINED (axiom; a finite non-empty list of extended reals has exactly one maximum) as the largest absolute value "
+        "of any bound - lower and upper - of any exchange, the local big_m equals M (two-generator max(abs(b) ...) characterised by "
+        "'every element <= m and some element = m'); the list handed to model.add_cons_vars, in one call, is exactly "
+        "[ind(r0), row(r0), ind(r1), row(r1), ...] with ind(r) = Variable('ind_' + r.id, lb=0, ub=1, type='binary') and row(r) = "
+        "Constraint(import_variable(r) - ind(r) * M, ub=0, name='ind_constraint_' + r.id), import_variable as above; then "
+        "solver.update() and only then set_linear_coefficients: coefficient 1 on every indicator, every other coefficient unchanged, "
+        "direction min; a model without exchanges raises ValueError (max of an empty sequence) - stated as a case, not hidden. Three "
+        "lemmas (LRA, y binary, 0 <= v <= M): y = 0 forces v = 0, y = 1 admits every v up to M, v > 0 forces y = 1 - so the objective "
+        "counts the active imports PROVIDED M bounds the import flux, which is why M must range over both bounds and absolute values. "
+        "Not claimed: that M is finite (an infinite exchange bound makes big_m infinite - the term is then still the one stated), "
+        "model.variables / model.problem are opaque (the size warning is dropped). The loops of the accessors over model.exchanges, "
+        "minimal_medium's driver loop and the optimality of its answers are NOT proved: "
         "bounded driver (exchanges written both ways, sub-dictionaries, sufficiency and minimality against the exact LP / subset "
         "enumeration)."),
         trusted=["Reaction.reactants/products non-empty iff the reaction has negative/positive coefficients (assumed contracts)",
                  "find_boundary_types / model.exchanges (heuristics; assumed to return single-metabolite reactions of the model)",
-                 "Objective.set_linear_coefficients (optlang, assumed)"])
+                 "Objective.set_linear_coefficients (optlang, assumed; for add_mip_obj over opaque variable terms: sets exactly the "
+                 "given coefficients)",
+                 "add_mip_obj: find_boundary_types(model, 'exchange') is a function of the model (fixed-name list EX); "
+                 "model.add_cons_vars / solver.update are recorded in a ghost trace, their effect on the solver is optlang's; "
+                 "big-M spec constant M defined by axiom as max |bound| (existence: finite non-empty list; NaN excluded by A2)",
+                 "opaque algebra (pyvc.npalg): optlang constructors and expression operators are pure functions of their arguments"])
 
 
 def replay(payload):
